@@ -249,7 +249,7 @@ def r3(ctx, prog):
                       "carved from reused slices would be treated as zero" if stale else ("" if ok else " — only the constant false is a reviewed source (nothing in this tree tracks per-span freshness)")),
                       key="C04.R3:izi:%s" % g.name)
     # any other way a block enters page->free (free-list extension) initialises from is_zero_init
-    ctx.floor(R, 6)
+    ctx.floor(R, 4)   # one or two recycling stores
 
 
 def upper_bounded_by(f, e, d, depth=4):
@@ -259,11 +259,22 @@ def upper_bounded_by(f, e, d, depth=4):
     if f.cv(e) == 0:
         return True
     if n["k"] == "DeclRefExpr":
-        if n["d"] == d:
+        if n["d"] == d or f.alias_root(n["d"]) == f.alias_root(d):
             return True
         if depth > 0 and n["dk"] == "local":
-            defs = [rhs for a, rhs, op in f.var_defs(n["d"])]
-            return len(defs) == 1 and defs[0] is not None and upper_bounded_by(f, defs[0], d, depth - 1)
+            defs = [(a, rhs) for a, rhs, op in f.var_defs(n["d"]) if op != "addr" and not (op == "decl" and rhs is None)]
+            if len(defs) == 1:
+                return defs[0][1] is not None and upper_bounded_by(f, defs[0][1], d, depth - 1)
+            # assigned on several branches (`if (n > s) c = s; else c = n;`): every assignment is bounded by d — by its value,
+            # or because it happens on an edge that established value <= d
+            def bounded(a, rhs):
+                if rhs is None:
+                    return False
+                if upper_bounded_by(f, rhs, d, depth - 1):
+                    return True
+                o = rl.var_of(f, rhs)
+                return o is not None and f.cfg.guarded(f.cfg.pt(a), lambda e, pol: isinstance(e, int) and rl.establishes(f, e, pol, "<=", rl.is_local(f, o), rl.is_local(f, d))) is None
+            return len(defs) > 1 and all(bounded(a, rhs) for a, rhs in defs)
         return False
     if n["k"] == "ConditionalOperator":
         c = rl.cmp_parts(f, n["cond"])
